@@ -60,6 +60,14 @@ PROBES = [
       "fields": [{"name": "v", "type": "Annotated[Var, Discriminator(field='kind', include_subtypes=True)]", "mode": "req",
                   "alias": None}], "mixin": True, "own_module": True,
       "forbid": False, "allow_nba": False, "discr": None, "discr_keys": []}, {"v": {"kind": "v1"}}),
+    # a field typed with a PEP 695 alias on the two error paths (regression probes of fix 3dfbd5e: the alias was rendered
+    # as its bare name, unbound in the generated code: NameError instead of MissingField / InvalidFieldValue)
+    ({"cls": "P_alias", "source": "@dataclass\nclass P_alias(DataClassDictMixin):\n    o: OptI\n",
+      "fields": [{"name": "o", "type": "OptI", "mode": "req", "alias": None}], "mixin": True,
+      "forbid": False, "allow_nba": False, "discr": None, "discr_keys": []}, {}),
+    ({"cls": "P_alias2", "source": "@dataclass\nclass P_alias2(DataClassDictMixin):\n    o: OptI\n",
+      "fields": [{"name": "o", "type": "OptI", "mode": "req", "alias": None}], "mixin": True,
+      "forbid": False, "allow_nba": False, "discr": None, "discr_keys": []}, {"o": "zz"}),
 ]
 DISCR_PROBES = [[1], {"type": [1]}]
 
@@ -654,7 +662,18 @@ def run(ctx: vlib.Ctx):
         "discriminator at a codec root and in a holder field")
     ctx.trusted += [
         "Errs.v: model of the generated from_dict body / union chain / discriminator dispatch (hand-written, compared "
-        "with /repo by vm_compute on every run and by an AST shape check of every captured generated from_dict)",
+        "with /repo by vm_compute on every run and by an AST shape check of every captured generated from_dict); since round 6 "
+        "the field block, the frame (allowed keys, extra-keys check, d.keys touch, except AttributeError) and the union method "
+        "are ALSO derived from /repo: kernels K105a / K105b / K19 translate the emitting code, FieldEmit.v / FrameEmit.v / ErrsEmit.v give "
+        "the emitted statements their meaning with exception classes, and C05_program_emitted / C05_union_emitted prove the emitted "
+        "program equal to Errs.from_dict / Errs.union_run",
+        "FieldEmit.v / FrameEmit.v / ErrsEmit.lines_c: Python meaning of the emitted statement vocabulary (d.get / d.keys on a "
+        "non-mapping raise AttributeError, `is MISSING` / `is not None` tests, bare `except:` catches everything, `except Exception: "
+        "pass` exactly the Exception subclasses, `else:` belongs to the `if` right before it) - hand-written, small; the tie between "
+        "vocabulary and real text is the per-run comparison of every captured block / frame / union method, normalised, with the "
+        "rendering of the translated function (c05_field_block_text, c05_frame_text, c05_k19_emit, c05_union_method_shape)",
+        "tools/kernels/k105a_field_block.py, k105b_frame.py: fail-closed AST translators (statements recognised by exact unparsed text); "
+        "K19 is property C11's translator (tools/kernels/k19_union_emit.py)",
         "Python semantics modelled not verified: dict.get / dict.keys on non-dicts raise AttributeError, isinstance(d, dict), "
         "bare except catches every BaseException, `except Exception` does not catch BaseException-only classes, "
         "value[str] on non-mappings raises TypeError, registry[tag] on an unhashable tag raises TypeError",
@@ -698,13 +717,16 @@ def run(ctx: vlib.Ctx):
                                              "C05_emitted_outcomes", "C05_emitted_first_bad", "C05_frame_emitted",
                                              "C05_allowed_keys_emitted", "C05_program_emitted", "C05_program_extra_exact"],
                  kernels=["K105a", "K105b"])
+    # (T) kernel K105c (prologue of the emitted discriminated dispatcher): its exceptions are Errs.discr_run's, it hands on the tag
+    ctx.theorems("props/C05_discr_emit.vo", ["C05_discr_prologue_exn", "C05_discr_prologue_ok", "C05_discr_prologue_classes"],
+                 kernels=["K105c"])
     # (T) kernel K16: emitted handler classes + exceptions.py hierarchy, re-translated from /repo on every run
     ctx.theorems("props/C05_handlers.vo", ["C05_k16_handlers_as_modelled", "C05_k16_documented_pass_through",
                                            "C05_k16_model_patterns"], kernels=["K16"])
     if not ctx.quick():
         # second opinion: the independent checker re-validates the compiled property files and their cone
         rc, log, secs = vlib.run(["timeout", "1500", "coqchk", "-silent", "-o", "-Q", "theories", "Verif", "-Q", "gen", "VerifGen",
-                                  "-Q", "props", "VerifProps", "VerifProps.C05_errors", "VerifProps.C05_typed", "VerifProps.C05_xtyped", "VerifProps.C05_emit", "VerifProps.C05_fieldblock", "VerifProps.C05_handlers"],
+                                  "-Q", "props", "VerifProps", "VerifProps.C05_errors", "VerifProps.C05_typed", "VerifProps.C05_xtyped", "VerifProps.C05_emit", "VerifProps.C05_fieldblock", "VerifProps.C05_discr_emit", "VerifProps.C05_handlers"],
                                  cwd=vlib.COQ, timeout=1530)
         ok = rc == 0 and "Axioms: <none>" in log
         ctx.obligation("coqchk VerifProps.C05_errors C05_typed C05_handlers (Axioms: <none>)", ok, log[-400:])
@@ -911,6 +933,9 @@ def run(ctx: vlib.Ctx):
             if xbad:
                 ctx.not_shown("correspondence c05_xtyped", f"{len(xbad)} of {len(xcases)} cases differ: {det}")
         ctx.count(n=len(xcases))
+        # kernel K105c: the prologue of every discriminated dispatcher generated for fixed fresh hierarchies, as text
+        from harness.props import c05_emit as _c05_emit
+        _c05_emit.run_discr(ctx)
         hic, hil = hier_section(ctx, rng, ctx.budget(120, 1500))
         run_corr(ctx, "c05_discr_history", hic,
                  "fun c => match c with (f, vs, ins, outs) => list_eqb res_eqb (discr_history f vs [] ins) outs end",
